@@ -1,26 +1,32 @@
 ------------------------------- MODULE PlotStopProof -------------------------------
-(* Unbounded: with the repaired close rule no StopPlot call panics, for any set of callers (TLC checks three). *)
+(* Unbounded: with the repaired rules (the flag is published together with the channel, the first caller closes) no
+   StopPlot call panics, for any set of callers (TLC checks three). *)
 EXTENDS PlotStop, TLAPS
-ASSUME RuleFirst == CloseRule = "first"
+ASSUME Repaired == CloseRule = "first" /\ StartRule = "together"
 SafeSpec == Init /\ [][Next]_vars
+Inv == ~panicked /\ ch # "none"
 THEOREM NeverPanics == SafeSpec => []NoPanic
-<1>1. Init => NoPanic
-  BY DEF Init, NoPanic
-<1>2. NoPanic /\ [Next]_vars => NoPanic'
-  <2> SUFFICES ASSUME NoPanic, [Next]_vars PROVE NoPanic'
+<1>1. Init => Inv
+  BY Repaired DEF Init, Inv
+<1>2. Inv /\ [Next]_vars => Inv'
+  <2> SUFFICES ASSUME Inv, [Next]_vars PROVE Inv'
     OBVIOUS
   <2>1. CASE \E s \in Stoppers : Check(s)
-    BY <2>1 DEF Check, NoPanic
+    BY <2>1 DEF Check, Inv
   <2>2. CASE \E s \in Stoppers : Close(s)
-    BY <2>2, RuleFirst DEF Close, NoPanic
+    BY <2>2, Repaired DEF Close, Inv
   <2>3. CASE \E s \in Stoppers : Wait(s)
-    BY <2>3 DEF Wait, NoPanic
+    BY <2>3 DEF Wait, Inv
   <2>4. CASE PlotEnds
-    BY <2>4 DEF PlotEnds, NoPanic
-  <2>5. CASE UNCHANGED vars
-    BY <2>5 DEF vars, NoPanic
+    BY <2>4 DEF PlotEnds, Inv
+  <2>5. CASE PlotStarts
+    BY <2>5 DEF PlotStarts, Inv
+  <2>6. CASE UNCHANGED vars
+    BY <2>6 DEF vars, Inv
   <2> QED
-    BY <2>1, <2>2, <2>3, <2>4, <2>5 DEF Next
+    BY <2>1, <2>2, <2>3, <2>4, <2>5, <2>6 DEF Next
+<1>3. Inv => NoPanic
+  BY DEF Inv, NoPanic
 <1> QED
-  BY <1>1, <1>2, PTL DEF SafeSpec
+  BY <1>1, <1>2, <1>3, PTL DEF SafeSpec
 =============================================================================
